@@ -137,6 +137,16 @@ def histories(tier, seed):
         h = [dict(o) for o in h]
         h[0]['nest2'] = True
         out.append((ini, h))
+    # the directors' glob ports wired by a dictionary ({'_path': .., '*': {}}):
+    # their structural updates go through another branch of the update's way back
+    for _ in range(80 if tier == 'quick' else 800):
+        ini = rng.choice(INITIALS)
+        h = sr.random_history(rng, rng.randint(2, 5), model_of(ini), names=['a', 'b', 'c'],
+                              tpls=('T1', 'T2', 'T3', 'T4'), max_comps=3)
+        # (deletions sent to the root or through '..' use the other ports)
+        h = [dict(o) for o in h]
+        h[0]['gdict'] = True
+        out.append((ini, h))
     return out
 
 
@@ -301,7 +311,7 @@ def runtime_declarations(rep):
         rep.nontrivial.add('runtime-declaration-' + name)
 
 
-def nested_moves(rep):
+def nested_moves(rep, prop='C09'):
     """C09 '_move detaches the source subtree and attaches it - values, processes
     and their relative wiring intact - under the target', for a source named by a
     path of two elements (Store.tla moves compartments named by one key): the
@@ -311,13 +321,28 @@ def nested_moves(rep):
     from vivarium.core.process import Process
 
     class Tick(Process):
-        defaults = {'time_step': 1}
+        defaults = {'time_step': 1, 'views': None}
 
         def ports_schema(self):
-            return {'count': {'n': {'_default': 0, '_emit': True}}}
+            # 'up' is wired to a store next to the compartment: the relative
+            # wiring is resolved from where the compartment is
+            return {'count': {'n': {'_default': 0, '_emit': True}},
+                    'up': {'s': {'_default': 0}}}
 
         def next_update(self, timestep, states):
+            if self.parameters['views'] is not None:
+                self.parameters['views'].append(states['up']['s'])
             return {'count': {'n': 1}}
+
+    class Shared(Process):
+        """declares the stores 'shared' the compartments are wired to"""
+        defaults = {'time_step': 1, 'stores': ('a', 'ax', 'b', 'bx')}
+
+        def ports_schema(self):
+            return {k: {'s': {'_default': 0}} for k in self.parameters['stores']}
+
+        def next_update(self, timestep, states):
+            return {}
 
     class Mover(Process):
         defaults = {'time_step': 1, 'move': None}
@@ -333,14 +358,27 @@ def nested_moves(rep):
     for source, holder in ((('x', 'y'), ('A', 'x')), (('x',), ('A',))):
         rep.evaluations += 1
         sig = {'kind': 'nested-move', 'source': list(source)}
-        inner = {'y': {'tick': Tick()}, 'z': {'tick': Tick()}}
-        inner_topo = {k: {'tick': {'count': ('count',)}} for k in inner}
+        views = []
+        # (when x itself moves, B holds no x beforehand and x/shared moves along)
+        stores = ('a', 'ax', 'b', 'bx') if len(source) == 2 else ('a', 'ax', 'b')
+        after = 220 if len(source) == 2 else 120
+        inner = {'y': {'tick': Tick({'views': views})}, 'z': {'tick': Tick()}}
+        inner_topo = {k: {'tick': {'count': ('count',), 'up': ('..', 'shared')}} for k in inner}
         try:
             eng = Engine(
                 processes={'mover': Mover({'move': {'source': source, 'target': 'b'}}),
-                           'A': {'x': inner}},
-                topology={'mover': {'a': ('A',), 'b': ('B',)}, 'A': {'x': inner_topo}},
-                initial_state={'B': {}}, display_info=False, emitter='null')
+                           'shared': Shared({'stores': stores}), 'A': {'x': inner}},
+                topology={'mover': {'a': ('A',), 'b': ('B',)},
+                          'shared': {k: v for k, v in {
+                              'a': ('A', 'shared'), 'ax': ('A', 'x', 'shared'),
+                              'b': ('B', 'shared'), 'bx': ('B', 'x', 'shared')}.items()
+                              if k in stores},
+                          'A': {'x': inner_topo}},
+                initial_state={'A': {'shared': {'s': 110}, 'x': {'shared': {'s': 120}}},
+                               'B': dict({'shared': {'s': 210}},
+                                         **({'x': {'shared': {'s': 220}}} if 'bx' in stores
+                                            else {}))},
+                display_info=False, emitter='null')
             eng.update(1)
             moved = eng.state.get_path(('A',) + source)
             other = eng.state.get_path(('A', 'x', 'z'))
@@ -374,9 +412,17 @@ def nested_moves(rep):
         if have != want:
             problems.append('the engine lists the processes %s under B, expected %s'
                             % (sorted(have), sorted(want)))
+        # the process of y reads the store 'shared' next to y: A/x/shared before
+        # the move, B/x/shared wherever y has moved with or without x
+        if not views or views[0] != 120 or views[-1] != after or set(views) - {120, after}:
+            problems.append('the moved process read %r through its port wired to '
+                            "('..', 'shared'), expected 120 (A/x/shared) before and %d "
+                            '(B/x/shared) after the move' % (views, after))
+        if prop == 'C07':
+            problems = [p for p in problems if 'wired to' in p]
         if problems:
-            rep.violation(sig, 'C09 a _move whose source is the path %r: %s'
-                          % (source, '; '.join(problems)), {})
+            rep.violation(sig, '%s a _move whose source is the path %r: %s'
+                          % (prop, source, '; '.join(problems)), {})
         rep.nontrivial.add('nested-move-%d' % len(source))
 
 
@@ -406,6 +452,7 @@ def check(prop, tier, seed):
         if prop == 'C07':
             from vv import prop_c07_static
             prop_c07_static.run(rep, tier, scratch)
+            rep.guard(nested_moves, rep, 'C07', what='views after moves of nested sources')
     return rep.finish()
 
 
